@@ -37,7 +37,7 @@ class World:
     def gate(self, pid, name):
         key = (pid, name)
         fut = self.gates.get(key)
-        if fut is None or fut.get_loop() is not self.loop:
+        if fut is None or fut.get_loop() is not self.loop or fut.cancelled():  # cancelled: the task awaiting it was cancelled
             fut = self.loop.create_future()
             self.gates[key] = fut
             if key in self.opened:
